@@ -625,6 +625,21 @@ func (f *Flow) evalStruct(t *Term, env Env, fl *evalFlags) ISet {
 						return f.fit(o.mapMono(func(x *big.Int) *big.Int { return new(big.Int).Add(x, cst[0].Lo) }), t.T, fl)
 					}
 				}
+				// x | y of non-negative operands: max(x, y) ≤ x|y < 2^k where both are < 2^k
+				// (hi<<8 | lo: the bounds of hi<<8 + lo)
+				if !a.Empty() && !b.Empty() && a.Min().Sign() >= 0 && b.Min().Sign() >= 0 {
+					lo, hi := a.Min(), a.Max()
+					if b.Min().Cmp(lo) > 0 {
+						lo = b.Min()
+					}
+					if b.Max().Cmp(hi) > 0 {
+						hi = b.Max()
+					}
+					if hi.BitLen() < 4096 {
+						up := new(big.Int).Sub(new(big.Int).Lsh(one, uint(hi.BitLen())), one)
+						return f.fit(ISet{{lo, up}}, t.T, fl)
+					}
+				}
 				return f.top(t.T)
 			}
 			if t.Op != token.AND {
